@@ -66,11 +66,55 @@ Proof.
   split; assumption.
 Qed.
 
+(* ---- observations: every public read is a function of what the sequence denotes ---- *)
+
+Lemma observe_correct : forall (v : bvec) (q : obs), wf v ->
+  observe B zero v q = fa_observe B zero (flat v) (abs_obs q).
+Proof.
+  intros v q Hv. destruct q as [| off | a b | off | | start stop]; cbn [observe abs_obs fa_observe].
+  - rewrite (flat_length B v Hv). reflexivity.
+  - rewrite (get_byte_correct B zero v off Hv). reflexivity.
+  - destruct (bslice_correct B zero v a b Hv) as (H1 & H2 & _).
+    rewrite (unwrap_correct B _ H1), H2. reflexivity.
+  - rewrite (get_word_correct B zero v off Hv). reflexivity.
+  - rewrite (unwrap_correct B v Hv). reflexivity.
+  - destruct (getitem_correct v start stop Hv) as [H1 H2].
+    rewrite (unwrap_correct B _ H1), H2. reflexivity.
+Qed.
+
+(* writes and observations interleaved in any way, from any well-formed state: every
+   observation returns what the flat array shows at that moment -- also when the same
+   observation is repeated between writes *)
+Lemma trace_correct : forall (es : list (ev B)) (v : bvec), wf v -> Forall ev_ok es ->
+  trace B zero v es = fa_trace B zero (flat v) (map abs_ev es).
+Proof.
+  induction es as [|e r IH]; intros v Hv Hok; [reflexivity|].
+  inversion Hok as [|? ? He Hr]; subst. destruct e as [o | q]; cbn [trace map abs_ev fa_trace].
+  - destruct (apply_op_correct B zero v o Hv He) as [H1 H2]. rewrite <- H2. apply IH; assumption.
+  - rewrite (observe_correct v q Hv). f_equal. apply IH; assumption.
+Qed.
+
+Lemma trace_from_empty : forall es : list (ev B), Forall ev_ok es ->
+  trace B zero empty es = fa_trace B zero [] (map abs_ev es).
+Proof. intros es H. apply (trace_correct es empty (wf_empty B) H). Qed.
+
 End Sugar.
 
 (* the inputs on which the sugar used to deviate (explicit stop 0 taken for "to the end"):
    v[2:0] = [8; 9] on [1; 2; 3; 4] is rejected like the flat write (stop < start),
    v[0:0] = [] is the no-op, and an omitted stop still means "to the end" *)
+(* the MSTORE8-twice pattern: a byte written, the whole read, the same byte overwritten (a
+   chunk exactly one byte long), the whole read again, twice *)
+Lemma trace_example :
+  trace nat 0 empty
+    [ EOp (OSetByte 0 false 17); EOp (OSetSlice 1 4 (wrap false [97; 98; 99])); EObs OUnwrap;
+      EOp (OSetByte 0 false 34); EObs OUnwrap; EObs OUnwrap; EObs (OGet 0); EObs OLen;
+      EObs (OItem None (Some 2)); EObs (OWord 2) ] =
+    [ FRBytes [17; 97; 98; 99]; FRBytes [34; 97; 98; 99]; FRBytes [34; 97; 98; 99]; FRBytes [34]; FRLen 4;
+      FRBytes [34; 97];
+      FRBytes [98; 99; 0; 0; 0; 0; 0; 0; 0; 0; 0; 0; 0; 0; 0; 0; 0; 0; 0; 0; 0; 0; 0; 0; 0; 0; 0; 0; 0; 0; 0; 0] ].
+Proof. vm_compute. reflexivity. Qed.
+
 Lemma setitem_stop0_example :
   let v : ByteVecModel.bvec nat := run_ops 0 [OAppend (wrap false [1; 2; 3; 4])] in
   wf v /\
